@@ -182,6 +182,15 @@ def distribution(cases, outs):
             "exceptions": dict(Counter(o["exc"] for o in outs if isinstance(o, dict) and "exc" in o))}
 
 
+# functions of the implementation this property is anchored in: their line coverage under the correspondence cases is
+# measured on the staged copy and reported in the evidence (implementation_line_coverage)
+ANCHORS = [
+    "datascope/importance/utility.py:SklearnModelUtility.__call__",
+    "datascope/importance/utility.py:SklearnModelUtility.null_score",
+    "datascope/importance/shapley.py:ShapleyImportance._shapley_bruteforce",
+    "datascope/importance/shapley.py:ShapleyImportance._shapley_montecarlo",
+]
+
 MANIFEST = {
     "text": "PARTIAL BY NATURE. Proof: C15_fallback_partial / C15_utility_fallback -- in the exception-flow model of the two "
             "fallback layers every handled outcome (ValueError, RuntimeWarning, and UserWarning at the method layer) "
